@@ -1,4 +1,4 @@
-"""C05 -- elements never move while they live.  Decided for List, HashMap, HashSet: the step contracts of
+"""C05 -- elements never move while they live.  Decided for List, HashMap, HashSet, PoolMap: the step contracts of
 List::insert / remove / swap carry FRAMES that name exactly the link fields that may change; the
 payload of every existing element and every node not adjacent to the operation is outside the
 frame, and the predicates compare node ADDRESSES, so an element that was relocated, copied or
@@ -24,8 +24,8 @@ for _u in _c02.UNITS:
         UNITS.append(_d)
 TRUSTED = _c03.TRUSTED + _c02.TRUSTED
 ASSUMPTIONS = [
-    "List, HashMap and HashSet are covered (insert / remove step contracts; HashMap/HashSet insert relative to bucket chains of <= 2 nodes). "
-    "Map, MultiMap, PoolList and PoolMap have no step contracts: for them C05 is not decided; swap of the hash containers is not covered",
+    "List, HashMap, HashSet and PoolMap are covered (insert / remove step contracts; HashMap/HashSet insert relative to bucket chains of <= 2 nodes). "
+    "Map, MultiMap and PoolList have no step contracts: for them C05 is not decided; swap of the hash containers is not covered",
     "history statement = induction over operations: no operation's frame contains the payload or the address of an element other than the one inserted / removed",
     "iterators are plain node pointers (List::Iterator::item), so iterator validity is node address stability",
 ]
